@@ -239,6 +239,21 @@ def run_unit(repo, unit, contracts_dir, tier='quick', jobs=8, keep=False):
             res['scratch'] = d
 
 
+def _touch_sources(d):
+    """All scratch copies share one native target dir and (same relative package path) one cargo
+    fingerprint; cargo's freshness test is mtime based.  Called with the target-dir lock held: makes this
+    copy's sources newer than whatever another unit built last, so cargo rebuilds instead of running the
+    other unit's test binary."""
+    now = time.time()
+    for root, _, files in os.walk(os.path.join(d, 'src')):
+        for f in files:
+            if f.endswith('.rs'):
+                try:
+                    os.utime(os.path.join(root, f), (now, now))
+                except OSError:
+                    pass
+
+
 def search_phase(d, feats, w_h, tier):
     """native witness search: the W harnesses run as #[test]s over biased random inputs"""
     out = dict(harnesses=[], failures=[])
@@ -250,8 +265,10 @@ def search_phase(d, feats, w_h, tier):
     env.pop('VERIF_REPLAY_VALS', None)
     seed = int(os.environ.get('VERIF_SEED', '0') or 0) + 1
     env['VERIF_SEARCH_SEED'] = str(seed)
+    os.makedirs(CACHE, exist_ok=True)
     tlock = open(os.path.join(CACHE, 'replay-target.lock'), 'w')
     fcntl.flock(tlock, fcntl.LOCK_EX)
+    _touch_sources(d)
     try:
         for h in w_h:
             n = int(h.get('n', 20000)) * (5 if tier == 'thorough' else 1)
@@ -278,6 +295,7 @@ def search_phase(d, feats, w_h, tier):
                 fcntl.flock(tlock, fcntl.LOCK_UN)
                 rec['replay'] = native_replay(d, feats, h['name'], vals)
                 fcntl.flock(tlock, fcntl.LOCK_EX)
+                _touch_sources(d)
                 if rec['replay'].get('confirmed'):
                     out['failures'].append(rec)
                 else:
@@ -459,10 +477,17 @@ def native_replay(d, feats, harness, vals):
     # test path unknown a priori: filter by name suffix without --exact
     cmd = ['cargo', 'test', '--offline', '--lib', '--features', feats, '--', '--nocapture', '--test-threads', '1',
            '::' + harness]
+    os.makedirs(CACHE, exist_ok=True)
+    tlock = open(os.path.join(CACHE, 'replay-target.lock'), 'w')
+    fcntl.flock(tlock, fcntl.LOCK_EX)
+    _touch_sources(d)
     try:
         p = subprocess.run(cmd, cwd=d, env=env, capture_output=True, text=True, timeout=3000)
     except subprocess.TimeoutExpired:
         return dict(confirmed=False, output='native replay build timeout')
+    finally:
+        fcntl.flock(tlock, fcntl.LOCK_UN)
+        tlock.close()
     out = p.stdout + '\n' + p.stderr
     ran = 'REPLAY-INPUTS ' + harness in out
     passed = 'REPLAY-PASSED ' + harness in out
